@@ -429,7 +429,10 @@ def canon_items(items: list[str]) -> list[str]:
     for x in items:
         f = x.split("|")
         if f[0] in SCOPE_FREE and len(f) == 4:
-            k = f"{f[0]}|{f[1]}|{f[3]}"
+            # (whether it happens once at import - module / class body - or on every call is kept: `sys.setrecursionlimit` moved
+            #  from module level into convert() is another program)
+            when = "@def" if f[2].startswith("<") else "@fn"
+            k = f"{f[0]}|{f[1]}|{f[3]}{when}"
             counts[k] = counts.get(k, 0) + 1
             continue
         if f[0] in ("class-object", "module-object") and "@fn" not in f[-1]:
